@@ -7,5 +7,7 @@ NoNodes     == {}
 N1          == {"n1"}
 N12         == {"n1", "n2"}
 N2          == {"n2"}
-\* state constraint for the routing instance: pushes are only routed, the workers stay where they are
+\* the routing instance: services are initialised, pushes are routed and queued; the worker goroutines never start
+RouteNext == (\E sv \in Svc : MMInit(sv)) \/ PushNext
+RouteSpec == Init /\ [][RouteNext]_vars
 ====
